@@ -116,6 +116,13 @@ def fixed_models():
                                     A(1, 2): F(app(8, ref(A(0, 2)), ref(A(0, 1)))),
                                     A(2, 1): F(('if', ref(A(1, 1)), ref(A(1, 2)), ('lit', 'no')))}, 'names': {}},
                 (0, 3)))
+    # AND / OR over RANGE arguments: the verdict of the range (and whether the argument behind it is evaluated at all)
+    # changes when a member is set; A3 is a blank member that becomes an input
+    out.append(('logic-range', {'cells': {A(0, 1): 1, A(0, 2): 0,
+                                          A(1, 1): F(('and', [('rng', 'Sheet1!A1:A3'), app(10, ('lit', 0), ref(A(0, 1)))])),
+                                          A(1, 2): F(('or', [('rng', 'Sheet1!A2:A3'), ref(A(1, 1))])),
+                                          A(2, 1): F(('if', ref(A(1, 2)), app(4, ('rng', 'Sheet1!A1:A3')), ('lit', 'no')))},
+                                'names': {}, 'extra_inputs': [A(0, 3)]}, (0, 2)))
     # equal-but-differently-typed constants side by side, observed by `&` (text form) and `=` (TRUE=1 is FALSE)
     out.append(('twins-true', {'cells': {A(0, 1): True, A(0, 2): 1, A(1, 1): F(app(8, ref(A(0, 1)), ('lit', '|'))),
                                          A(1, 2): F(app(8, ref(A(0, 2)), ('lit', '|'))),
@@ -144,6 +151,19 @@ TWIN_VALUES = TRUE_POOL + FALSE_POOL
 SPECIAL_VALUES = ['x', 'ab', '', True, False, 0, 2.5, -1, 100]
 
 
+def gen_range_key(rng, safe_cols):
+    """a range of >= 2 cells inside the first `safe_cols` columns (rows 1..3) of Sheet1"""
+    c0 = rng.randrange(safe_cols)
+    c1 = rng.randrange(c0, safe_cols)
+    r0 = rng.randint(1, 3)
+    r1 = rng.randint(r0, 3)
+    if (c0, r0) == (c1, r1):
+        r1 = min(3, r1 + 1)
+        if (c0, r0) == (c1, r1):
+            r0 = 1
+    return f'Sheet1!{"ABCDEFGH"[c0]}{r0}:{"ABCDEFGH"[c1]}{r1}'
+
+
 def gen_fx(rng, earlier, safe_cols, depth, twins=False):
     """a formula over earlier cells and over ranges inside the safe columns of Sheet1"""
     if twins and earlier and rng.random() < 0.45:
@@ -163,15 +183,7 @@ def gen_fx(rng, earlier, safe_cols, depth, twins=False):
         return app(rng.choice([0, 1, 2, 0, 1, 2, 3]), gen_fx(rng, earlier, safe_cols, depth - 1, twins),
                    gen_fx(rng, earlier, safe_cols, depth - 1, twins))
     if r < 0.72 and safe_cols > 0:
-        c0 = rng.randrange(safe_cols)
-        c1 = rng.randrange(c0, safe_cols)
-        r0 = rng.randint(1, 3)
-        r1 = rng.randint(r0, 3)
-        if (c0, r0) == (c1, r1):
-            r1 = min(3, r1 + 1)
-            if (c0, r0) == (c1, r1):
-                r0 = 1
-        key = f'Sheet1!{"ABCDEFGH"[c0]}{r0}:{"ABCDEFGH"[c1]}{r1}'
+        key = gen_range_key(rng, safe_cols)
         fn = 4 if rng.random() < 0.8 else 9
         if rng.random() < 0.3:
             return app(0, app(fn, ('rng', key)), gen_fx(rng, earlier, safe_cols, depth - 1, twins))
@@ -186,8 +198,17 @@ def gen_fx(rng, earlier, safe_cols, depth, twins=False):
                           gen_fx(rng, earlier, safe_cols, depth - 1, twins)),
                 gen_fx(rng, earlier, safe_cols, depth - 1, twins), gen_fx(rng, earlier, safe_cols, depth - 1, twins))
     if r < 0.88:
-        return (rng.choice(['and', 'or']), [app(10, gen_fx(rng, earlier, safe_cols, depth - 1, twins), ('lit', 4)),
-                                            app(6, gen_fx(rng, earlier, safe_cols, depth - 1, twins), ('lit', 2))])
+        args = [app(10, gen_fx(rng, earlier, safe_cols, depth - 1, twins), ('lit', 4)),
+                app(6, gen_fx(rng, earlier, safe_cols, depth - 1, twins), ('lit', 2))]
+        kind = rng.choice(['and', 'or'])
+        if safe_cols > 0 and rng.random() < 0.6:
+            # a bare RANGE argument (the evaluator model's `Fx.sc` flattens it like logical.py does): its cells are
+            # inputs / earlier formulas, so the verdict - and which later arguments are evaluated at all - changes
+            # along a history
+            args.insert(rng.randrange(len(args) + 1), ('rng', gen_range_key(rng, safe_cols)))
+            if earlier and rng.random() < 0.5:
+                args.append(ref(rng.choice(earlier)))
+        return (kind, args)
     if r < 0.93:
         return app(7, gen_fx(rng, earlier, safe_cols, depth - 1, twins))
     if r < 0.96:
